@@ -46,6 +46,8 @@ pub struct MonState {
     pub thread_acc:      Vec<usize>,
     pub max_gas_accounted: usize,
     pub cost_at:         Vec<usize>,
+    pub want_executed:   bool,
+    pub executed:        std::collections::BTreeSet<u32>,
     pub thread_opgas:    Vec<usize>,
     pub thread_pending:  Vec<usize>,
     pub max_opgas_before: usize,
@@ -96,6 +98,8 @@ impl MonState {
             thread_acc: vec![0],
             max_gas_accounted: 0,
             cost_at: Vec::new(),
+            want_executed: false,
+            executed: std::collections::BTreeSet::new(),
             thread_opgas: vec![0],
             thread_pending: vec![0],
             max_opgas_before: 0,
@@ -194,6 +198,7 @@ impl MonState {
             "polls_after_stop_same_instance": self.polls_after_stop_same_instance,
             "stop_site": self.stop_site,
             "max_gas_accounted": self.max_gas_accounted,
+            "executed_ips": if self.want_executed { json!(self.executed.iter().collect::<Vec<_>>()) } else { J::Null },
             "max_opgas_before": self.max_opgas_before,
             "max_opgas_at": self.max_opgas_at,
             "retire_gas": self.retire_gas.iter().map(|(ip, g)| json!([ip, g])).collect::<Vec<_>>(),
@@ -221,6 +226,9 @@ impl Monitor for DriverMonitor {
         match event {
             Event::Step { ip, gas, visits } => {
                 s.steps += 1;
+                if s.want_executed {
+                    s.executed.insert(ip);
+                }
                 if visits > s.max_visits {
                     s.max_visits = visits;
                     s.max_visits_at = ip;
